@@ -48,6 +48,19 @@ let parse_stack (s : string) : stk =
 
 let cursor_state data pos : Obj.t = Obj.repr { Model.cdata = data; Model.cpos = pos }
 
+(* sparse virtual stream: V<len>@<off>:<hex>@<off>:<hex>... *)
+let vspec : (Model.n * (Model.n * Model.byte list) list) option ref = ref None
+let parse_vspec (s : string) =
+  match String.split_on_char '@' (String.sub s 1 (String.length s - 1)) with
+  | len :: exts ->
+    (cn_of_string len, List.map (fun e -> match String.split_on_char ':' e with
+         | [o; h] -> (cn_of_string o, unhex h) | _ -> failwith "bad-vspec") exts)
+  | [] -> failwith "bad-vspec"
+let vcur_state () : Obj.t =
+  match !vspec with
+  | Some (len, exts) -> Obj.repr { Model.v_len = len; Model.v_exts = exts; Model.v_pos = N0 }
+  | None -> failwith "bad-vspec"
+
 (* synchronous view of a stack: (reader, initial state); capacities are consumed outermost first *)
 let build_sync (st : stk) (caps : Model.n list) data pos : Model.reader * Obj.t =
   let caps = ref caps in
@@ -57,6 +70,8 @@ let build_sync (st : stk) (caps : Model.n list) data pos : Model.reader * Obj.t 
     | Base "cursor" -> (Model.cursor_reader u64max, cursor_state data pos)
     | Base "fcursor" -> (Model.fut_view (Model.cursor_reader u64max), cursor_state data pos)
     | Base "native" -> (Model.fut_view (Model.cursor_reader u64max), cursor_state data pos)
+    | Base "vcur" -> (Model.seekable_reader (Model.vcursor_seeker u64max), vcur_state ())
+    | Layer ("seek", Base ("vcur" | "avcur")) -> (Model.seek_adapter (Model.vcursor_seeker u64max), vcur_state ())
     | Layer ("seek", inner) ->
       (* SeekSkipAdapter over a Read + Seek: cursor, &mut cursor, Box<cursor>, futures cursor, PendingCursor *)
       let rec is_cursor = function
@@ -75,7 +90,7 @@ let build_sync (st : stk) (caps : Model.n list) data pos : Model.reader * Obj.t 
   in go st
 
 let rec is_async = function
-  | Base ("fcursor" | "pc" | "native") -> true
+  | Base ("fcursor" | "pc" | "native" | "avcur") -> true
   | Base _ -> false
   | Layer ("ain", _) -> true
   | Layer (_, i) -> is_async i
@@ -84,6 +99,7 @@ let run_hist args =
   match args with
   | [stack; caps; data; ops] ->
     let st = parse_stack stack in
+    let data = if String.length data > 0 && data.[0] = 'V' then (vspec := Some (parse_vspec data); "-") else data in
     let (r, s) = build_sync st (parse_caps caps) (unhex data) N0 in
     (* on the async side read_exact is always futures' ReadExact over the outermost poll_read *)
     let r = if is_async st then Model.fut_view r else r in
